@@ -35,6 +35,7 @@ func checkC16(p *load.Program, r *kit.Report) {
 	r.Rule("GUARD-DOM", "markBlockRequestComplete is called only behind err == nil; it closes currentComplete only behind hash.Equal(&m.currentHash) and !currentIsComplete, setting the flag, under currentLock; new requests in the poll arm only behind activeDownloadCount < concurrentBlockRequests", 3)
 	r.Rule("MUST-PASS", "every nil return of processRequest performs exactly one terminal operation on request.complete (send BlockAborted xor close) after cancelDownloaders; onDownloaderCompleted removes the downloader on every path", 3)
 	r.Rule("CALLBACK-UNLOCKED", "a function value kept in a field (block handler, on-stop callback, header handler, message handler) is called only with no mutex held by the caller (lock-order cycles with the callee's own locks)", 3)
+	r.Rule("GIVE-UP", "processRequest abandons a block only after consecutive polls without any active download; removeDownloader removes exactly the given downloader (identity); HandleBlock sends nil on Complete only as handleBlock's result for the requested hash", 3)
 	r.Rule("SNAPSHOT", "cancelDownloaders/Stop cancel the elements of a snapshot of the downloader list copied under downloaderLock (completions shrink the live list concurrently)", 2)
 	r.Rule("LOCKSET", "downloader flags under stateLock, downloader list under downloaderLock, current request state under currentLock, requestsClosed under requestLock", 15)
 	r.Assume("HandleBlock runs at most once per BlockDownloader (the node clears the block handler in completeBlock on every path that invoked it)")
@@ -249,6 +250,9 @@ func checkC16(p *load.Program, r *kit.Report) {
 
 	checkBlockManager(p, r)
 	checkCallbackUnlocked(p, r, "CALLBACK-UNLOCKED")
+	checkGiveUpOnlyIdle(p, r, "GIVE-UP")
+	checkRemoveDownloaderIdentity(p, r, "GIVE-UP")
+	checkCompleteCarriesVerdict(p, r, "GIVE-UP")
 
 	// LOCKSET
 	funcs := pkgFuncs(p, R)
